@@ -153,3 +153,109 @@ def run(ctx: Context) -> None:  # noqa: F811
 
     ctx.rep.rule('C08.R10', 'lazy establishment is a test-and-set under the establishment lock (the `is None` / `not connected` test is evaluated inside the lock region that installs the connection)')
     support.establish_test_and_set(ctx, 'C08.R10', ('sync',))
+
+
+# ---- R11: lockset census (Eraser-style) over every instance field of the classes shared between threads -------------
+SHARED_CLASSES = (("connection_pool", "AsyncConnectionPool"), ("connection_pool", "AsyncPoolRequest"), ("connection_pool", "PoolByteStream"),
+                  ("connection", "AsyncHTTPConnection"), ("http11", "AsyncHTTP11Connection"), ("http2", "AsyncHTTP2Connection"),
+                  ("http_proxy", "AsyncTunnelHTTPConnection"), ("http_proxy", "AsyncForwardHTTPConnection"), ("socks_proxy", "AsyncSocks5Connection"),
+                  ("http2", "HTTP2ConnectionByteStream"), ("http11", "HTTP11ConnectionByteStream"))
+CONTAINER_MUTATORS = ("append", "remove", "pop", "clear", "update", "extend", "insert", "setdefault", "add", "discard", "popitem")
+# fields whose writes share no lock, confirmed benign by reading - one named field, one reason
+BENIGN_FIELDS = {
+    ("AsyncPoolRequest", "_connection_acquired"): "rebound only by the owning thread (clear_connection); the waiter re-checks `self.connection` before it waits (C07.R2), so a set() on the old event is never lost",
+    ("PoolByteStream", "_closed"): "a response stream belongs to one caller: close() is not run by two threads at once",
+    ("HTTP2ConnectionByteStream", "_closed"): "a response stream belongs to one caller: close() is not run by two threads at once",
+    ("HTTP11ConnectionByteStream", "_closed"): "a response stream belongs to one caller: close() is not run by two threads at once",
+    ("AsyncHTTPConnection", "_connect_failed"): "monotonic flag (False -> True) written inside the establishment region; the readers are advisory predicates",
+    ("AsyncHTTP11Connection", "_state"): "every transition holds the state lock except the terminal CLOSED store of the lock-free close routine (stated in the source; C08.R2, C01.R10)",
+    ("AsyncHTTP2Connection", "_state"): "every transition holds the state lock except the terminal CLOSED store of the lock-free close routine (stated in the source; C08.R2, C01.R10)",
+    ("AsyncHTTP2Connection", "_connection_error"): "monotonic flag (False -> True), set under either I/O lock; the reader is an advisory predicate",
+    ("AsyncHTTP2Connection", "_used_all_stream_ids"): "monotonic flag (False -> True); the readers are advisory predicates",
+    ("AsyncHTTP2Connection", "_max_streams"): "written under the init lock before the connection preface is sent (no SETTINGS can be processed earlier), afterwards only by the socket reader under the read lock",
+    ("AsyncHTTP2Connection", "_events"): "each entry is created and deleted only by the thread that owns that stream; the socket reader routes an event with ONE atomic get() (fix 7a268ce) - the census still rejects any check-then-act on the table",
+    ("AsyncHTTP2Connection", "_request_count"): "informational counter (info() / repr only): a lost update affects no guarantee",
+}
+
+
+def _lockset_census(ctx: Context) -> None:
+    rep = ctx.rep
+    tree = "sync"
+    N = ctx.names(tree)
+    L = locks_for(ctx, tree)
+    inv = {N.t(cn): cn for _, cn in SHARED_CLASSES}
+    nfields = 0
+    for mod, cn in SHARED_CLASSES:
+        c = N.cls(mod, cn)
+        acc: dict[str, list[tuple[bool, frozenset, FuncInfo, ast.AST, str]]] = {}
+        for f in c.methods.values():
+            if f.name == "__init__":
+                continue
+            for n in own_nodes(f.node):
+                if not (isinstance(n, ast.Attribute) and isinstance(n.value, ast.Name) and n.value.id == "self" and n.attr.startswith("_")):
+                    continue
+                p = parent(n)
+                if isinstance(p, ast.Call) and p.func is n:
+                    continue   # a method call on self, not a field
+                kind = "r"
+                w = not isinstance(n.ctx, ast.Load)
+                if isinstance(p, ast.Attribute) and isinstance(parent(p), ast.Call) and parent(p).func is p and p.attr in CONTAINER_MUTATORS:
+                    w, kind = True, "mutate"
+                if isinstance(p, ast.Subscript) and p.value is n:
+                    kind = "subscript"
+                    if not isinstance(p.ctx, ast.Load):
+                        w = True
+                if isinstance(p, ast.AugAssign) and p.target is n:
+                    w, kind = True, "rmw"
+                if isinstance(p, ast.Compare) and any(isinstance(o, (ast.In, ast.NotIn)) for o in p.ops) and n in p.comparators:
+                    kind = "member-test"
+                acc.setdefault(n.attr, []).append((w, frozenset(L.must_hold(n, f)), f, n, kind))
+        for fld, lst in sorted(acc.items()):
+            writes = [x for x in lst if x[0]]
+            if not writes:
+                continue
+            nfields += 1
+            common = frozenset.intersection(*[x[1] for x in lst])
+            wcommon = frozenset.intersection(*[x[1] for x in writes])
+            key = f"sync|{c.name}|lockset:{fld}"
+            wh = where(writes[0][2], writes[0][3])
+            if common:
+                rep.ob("C08.R11", key, True, wh, f"every access to {c.name}.{fld} holds {sorted(x.split('.')[-1] for x in common)}")
+                continue
+            # check-then-act on a container: a membership test and a subscript of the same field in one function, not under a lock every writer holds
+            cta = []
+            for f in {x[2] for x in lst}:
+                tests = [x for x in lst if x[2] is f and x[4] == "member-test"]
+                subs = [x for x in lst if x[2] is f and x[4] in ("subscript", "mutate")]
+                for t in tests:
+                    for s in subs:
+                        if s[3].lineno >= t[3].lineno and not (t[1] & s[1] & wcommon):
+                            cta.append((f, t[3], s[3]))
+            if wcommon and not cta and all(x[4] in ("r", "subscript") or x[0] for x in lst):
+                unprot = [x for x in lst if not (x[1] & wcommon)]
+                rep.ob("C08.R11", key, True, wh, f"every write of {c.name}.{fld} holds {sorted(x.split('.')[-1] for x in wcommon)}; the {len(unprot)} unlocked accesses are plain reads of one reference "
+                       "(atomic under the interpreter lock) feeding advisory predicates / snapshots")
+                continue
+            why = BENIGN_FIELDS.get((inv.get(c.name, c.name), fld))
+            if why and not cta:
+                rep.ob("C08.R11", key, True, wh, f"{c.name}.{fld}: writes share no lock - accepted: {why}")
+                continue
+            sites = "; ".join(f"{'W' if x[0] else 'r'} {x[2].name}:{x[3].lineno} [{','.join(sorted(h.split('.')[-1] for h in x[1])) or 'no lock'}]" for x in lst[:10])
+            if cta:
+                f0, t0, s0 = cta[0]
+                detail = (f"{c.name}.{fld}: `{ast.unparse(parent(t0))}` (line {t0.lineno}) and the access at line {s0.lineno} of {f0.name} form a check-then-act that is not atomic against the "
+                          f"unlocked writers of the table ({sites}): a thread switch in between lets the owner of that entry delete it - the access then raises KeyError in THIS thread, "
+                          "which is serving a different, healthy request")
+            else:
+                detail = f"{c.name}.{fld} is written without a common lock and is not a field confirmed benign: {sites}"
+            rep.ob("C08.R11", key, False, wh, detail)
+    rep.floor("C08.R11", "written instance fields of thread-shared classes (sync)", nfields, 20)
+
+
+_core_run6 = run
+
+
+def run(ctx: Context) -> None:  # noqa: F811
+    _core_run6(ctx)
+    ctx.rep.rule("C08.R11", "lockset census: every written field of a thread-shared class is consistently locked, single-writer-locked with plain reads, or an enumerated benign field; no unlocked check-then-act on a shared table")
+    _lockset_census(ctx)
